@@ -11,7 +11,29 @@ NOTE_COMMON = ("Trusted: CPython 3.12, CrossHair 0.0.110's model of it, z3 5.1. 
                "'confirmed' = CrossHair exhausted every path inside the bound, otherwise the run "
                "is bug hunting only. ")
 
+DB_NOTE = ("SQLite is replaced by vf/sqlmodel.py, an interpreter for the SQL text the real code emits "
+           "(differentially validated against real sqlite3 and by the repository's own tests at setup; "
+           "every counterexample is replayed on a real database before it is reported). ")
+
 CHECKS = {
+    'C01': dict(
+        text="Bounded symbolic model checking of the real add_lexical_resource and query API: documents "
+             "with a concrete skeleton and symbolic payload (all strings/flags/presence bits) are added "
+             "through an executable model of the SQL; the walk over the public API must equal an "
+             "independent projection of the document for every payload value.",
+        note=NOTE_COMMON + DB_NOTE + "normalize_form stubbed by identity while adding; written forms "
+             "and counts concrete at API level (raw-column obligation covers them symbolically).",
+        technique="CrossHair symbolic execution (z3) of real wn._add/_queries/_core over an executable SQL model",
+        ref='4 C01'),
+    'C18': dict(
+        text="Bounded symbolic model checking of the real wn.validate checks: lexicons whose ids, "
+             "references, relation targets/types, ILIs, parts of speech and texts are symbolic strings; "
+             "each check's items are compared with an independent predicate, the report keys with the "
+             "documented table.",
+        note=NOTE_COMMON + "Relation types for W402/W404/W501 are chosen by symbolic index from a pool "
+             "of names; the E204/E401 => add-rejects clause is checked in C06.",
+        technique="CrossHair symbolic execution (z3) of the real, de-hashed wn.validate code vs. oracle",
+        ref='4 C18'),
     'C17': dict(
         text="Bounded symbolic model checking of the real wn.morphy.Morphy and wn._core._find_helper: "
              "for every query string up to the length bound (all code points) and every symbolic "
